@@ -70,9 +70,9 @@ CLAIMS = {
     technique="Lean 4 theorems on the chooser model + auto-stream correspondence",
     ref="7/C13"),
   "C14": dict(
-    text="Lean 4 (28 theorems): exact/upper bounds of every encoder piece for every well-formed file: offset <= k+1 <= W bits, varint <= 48 bits, file overhead 7 bytes, count field <= 24 bits, prefix metadata <= 67+3W bits, chunk metadata bound, Kraft feasibility of the reference code for pairwise disjoint ranges (from disjointB), and the *conditional* body bound: if total code bits <= total reference-code bits (+c per number) then body <= n(W+1+c). Huffman optimality itself is NOT proved (hypothesis). Tie: exact body/metadata bits computed by the model from the observed table (equal to real sizes since the spec re-encoding reproduces the bytes) on adversarial distributions; the stated inequalities checked per instance. Known finding: bool delta moments take a byte each.",
-    note="partial: unbounded body claim is conditional on Huffman optimality and the run-length weight; per-instance evaluation covers explored inputs only.",
-    technique="Lean 4 size theorems + conditional bound + per-instance evaluation on the enc stream",
+    text="Lean 4: exact/upper bounds of every encoder piece for every well-formed file: offset <= k+1 <= W bits, varint <= 48 bits, file overhead 7 bytes, count field <= 24 bits, prefix metadata <= 67+3W bits, chunk metadata bound, Kraft feasibility of the reference code (length W-k) for pairwise disjoint ranges. Huffman optimality IS proved (Lemmas/HuffmanKraft, HuffmanOpt): an executable model of make_huffman_code plus a relational one allowing any heap tie-breaking; every run of the loop has the same cost huffCost ws, the codes are a complete prefix-free tree, and that cost is minimal among Kraft-feasible lengths / prefix-free codes. Hence C14h.body_bound: for a table without run-length prefix, disjoint ranges inside [0,2^W), truthful counts and codes costing Huffman's cost, the body takes <= n(W+1)+7 bits. Tie: the hypotheses are evaluated on every emitted chunk (disj, counts, huffopt: sum count*len == huffCostW weights) and the exact body/metadata bits computed by the model from the observed table (equal to real sizes since the spec re-encoding reproduces the bytes) are compared with the stated bounds on adversarial distributions. Known finding: bool delta moments take a byte each.",
+    note="partial only for chunks WITH a run-length prefix (its Huffman weight is an f64 estimate of the number of runs; the theorem covers single blocks): there the bound is evaluated per instance. That the real make_huffman_code is an instance of the relational loop is tied per chunk by the cost equality, not by proof about the Rust BinaryHeap.",
+    technique="Lean 4 size theorems + Huffman optimality proof + per-chunk hypothesis evaluation on the enc stream",
     ref="7/C14"),
   "C15": dict(
     text="Lean 4 (12 theorems) over a step-by-step model of the conversions with fixed-width ranges explicit: for every representable SystemTime the (seconds, nanos) split never overflows; 64-bit conversion = floor(instant/ns_per_part) or InvalidArgument, never a panic or wrapped value; nanosecond round trip returns the same SystemTime, microsecond round trip the instant rounded down (also before the epoch); reverse direction for every i64; 96-bit: exact, always inside the documented range, out-of-range parts rejected by new/validate/TryFrom. Tie: ts stream (epoch +-, sub-second boundaries, 64-bit limits +-1, platform extremes, random 2^0..2^93 ns) both directions, every line compared with the model; direct oracle with independent integer arithmetic.",
